@@ -88,6 +88,11 @@ func FieldReads(fn *ssa.Function) map[*types.Var]bool {
 				if f := FieldOf(x); f != nil {
 					out[f] = true
 				}
+			case *ssa.Slice:
+				// x.f[:] of an array field
+				if f := FieldOf(x.X); f != nil {
+					out[f] = true
+				}
 			}
 		}
 	}
